@@ -294,10 +294,20 @@ def run_loop(ctx, pid):
                 for mfe in range(n0, n0 + 13):
                     nw.append(_e1job(D, j["mode"], {"max_fun_evals": mfe, "noise_final_samples": nfs}, seed))
     st = explore(nw, ["noise"], 0, sink, stats=st, name="noisy/budget-window")
-    st = explore(nz, ["noise"], 0 if q else 1, sink, stats=st, name="noisy",
-                 pos_ok=lambda kind, pos, res: pos % 3 == 0, cap=None if q else st["executions"] + 20000)
+    st = explore(nz, ["noise"], 1, sink, stats=st, name="noisy",
+                 pos_ok=lambda kind, pos, res: pos >= 30 and pos % (6 if q else 2) == 0, cap=None if q else st["executions"] + 20000)
     # constrained runs (possibly empty search sets)
     cs = [_e1job(D, "det", {"tol_mesh": 2.0**-3, "complete_poll": cp}, seed, cons=c, geo="lin") for D in (1, 2) for cp in (False, True) for c in ("half", "ball", "annulus")]
+    # thin feasible sets: whole poll candidate sets are filtered out (polls with zero evaluations), empty search sets
+    from .c02 import cons_spec, slab_start
+    for D in (1, 2):
+        for cp in (False, True):
+            j = _e1job(D, "det", {"tol_mesh": 2.0**-4, "complete_poll": cp}, seed, cons=cons_spec("slab", "lin", D), geo="lin")
+            j["x0"] = slab_start("lin", D)
+            j["target"] = "sphere_in"
+            cs.append(j)
+            j2 = dict(j, mode="decl", opts=dict(j["opts"], max_fun_evals=50, noise_final_samples=2))
+            cs.append(j2)
     st = explore(cs, ["ans"], 0 if q else 1, sink, stats=st, name="det/constrained")
     sink.finish_cov(st)
     rep.set("gate_jobs", ng)
